@@ -178,16 +178,17 @@ PROPS["C11"] = {
 
 PROPS["C04"] = {
     "kind": "crash",
-    "modules": ["C04", "C04Eio", "C04Ban", "NonVacuity"],
+    "modules": ["C04", "C04Eio", "C04Ban", "C04Up", "NonVacuity"],
     "required_theorems": ["crash_safe", "crash_in_progress", "reset_fault_safe", "recover_facts", "launch_files_ok", "segs_op", "segs_ops", "step_launch_inv", "crashPairs_pjok", "crash_safe_not_banned",
                           "secHandlePriorSaves_apply", "secLaunchStartSaves_apply", "secLaunchSuccessSaves_apply", "secLaunchFailureSaves_apply",
                           "secNextBootPatchSaves_apply", "secClearEventsSaves_apply", "secRollBackSaves_apply", "secInstallSaves_apply",
                           "eio_safe_next_launch", "eio_safe_same_process", "eio_inv", "faultPairs_pred", "resetThen_inv", "resetThen_none",
-                          "opSegs_sec", "reach_step", "reach_ops", "tryFallBackKeep_ps", "crash_safe_reachable", "reachable_selfBan", "step_selfBan"],
+                          "opSegs_sec", "reach_step", "reach_ops", "tryFallBackKeep_ps", "crash_safe_reachable", "reachable_selfBan", "step_selfBan",
+                          "crash_then_other_release", "Sec.saves_sjver", "crashPairs_notOf", "starts_ops"],
     "monitors": ["C04"],
     "assumptions": ["process death = the process stops between two of its file-system calls, or half-way through a write; every completed call is durable and ordered (no fsync in the code: loss or reordering of completed writes by the kernel / file system below is outside the model)",
                     "a state file that is being rewritten is unreadable (empty or cut short) until the write completes: serde_json rejects every proper prefix of the documents involved",
-                    "the next launch passes the same release version as the interrupted one (any other version discards the state by C08)",
+                    "the next launch is one of the same release (crash_safe) or of another release the directory was never a state of (crash_then_other_release: nothing is selected); a downgrade back to a release whose state files are still in place is C08's subject",
                     "single I/O error, execution continues (second sentence): the fault is a failing state-file write (file untouched or cut short; the section stops anywhere later or runs on), a failing artifact operation (patches/ left in ANY state; the section's saves stop anywhere) or a failing step of the release-change reset; read errors are not modelled; that the VALUES a section saves do not depend on whether its removals of artifacts succeeded is proved for the fallback, the only place that decides after removing (tryFallBackKeep_ps); add_patch gives up before saving when placing the file fails (read off the code, exercised by the eio runs)",
                     "the theorem's process runs ANY sequence of the library's critical sections (a superset of every call sequence, reach_step); which section a real call runs after a failed one is therefore not modelled and need not be"],
 }
